@@ -272,6 +272,9 @@ class FnSpec:
             return " -> ::std::string::String"
         if self.ret == "i64":
             return " -> i64"
+        if self.ret == "impl_dbg":
+            # an opaque return type (the value is a String)
+            return " -> impl ::core::fmt::Debug + ::core::marker::Send"
         if self.ret in ("borrow_deps", "borrow_arg"):
             return " -> &%sstr" % ((self.ret_lifetime + " ") if self.ret_lifetime else "")
         if self.ret == "generic":
@@ -320,7 +323,7 @@ class FnSpec:
             b.append(self.body_extra)
         if self.ret == "unit":
             pass
-        elif self.ret == "owned":
+        elif self.ret in ("owned", "impl_dbg"):
             fmt = self.fn_id + "".join("|{:?}" for _ in self.logged())
             b.append('::std::format!("%s"%s)' % (fmt, "".join(", " + n for n in self.logged())))
         elif self.ret == "i64":
